@@ -436,7 +436,7 @@ func scanSinks(c *Ctx, fns []*ssa.Function, sr sinkRules) {
 					}
 					r := rangeAt(sz, x.Block(), pb)
 					key := fmt.Sprintf("%s | make(%s) %s=%s", name, tstr(x.Type()), which, describe(sz))
-					ok := r.lo >= 0 && sizeBounded(sz, r, pb)
+					ok := (r.lo >= 0 || linGE0(sz, x.Block(), pb)) && (sizeBounded(sz, r, pb) || linLEConst(sz, allocConstCap, x.Block(), pb))
 					det := fmt.Sprintf("size range [%s,%s]", showBound(r.lo), showBound(r.hi))
 					c.Check(sr.alloc, key, pos, ok, "allocation size is non-negative and bounded by the input length or a constant: "+det,
 						"allocation sized by a value that no dominating comparison bounds by the input length or a constant (or that may be negative): makeslice panics or memory is allocated out of proportion to the input; "+det)
@@ -469,16 +469,22 @@ func scanSinks(c *Ctx, fns []*ssa.Function, sr sinkRules) {
 				}
 				if upper != nil {
 					// for x[:h] on a slice the limit is cap(x) >= len(x): len is a sufficient bound
-					if !boundWithin(upper, x.X, b, pb, false) {
+					if !boundWithin(upper, x.X, b, pb, false) && !linLELen(upper, x.X, b, pb, false) {
 						problems = append(problems, "upper bound "+describe(upper)+" not proven <= len("+describe(x.X)+")")
 					}
-					if x.Low != nil && !lowLeHigh(x.Low, upper, b, pb) {
+					if x.Low != nil && !lowLeHigh(x.Low, upper, b, pb) && !linLE(x.Low, upper, b, pb, false) {
 						problems = append(problems, "low "+describe(x.Low)+" not proven <= high "+describe(upper)+" (wrap-around included)")
 					}
+					if x.Low == nil && rangeAt(upper, b, pb).lo < 0 && !linGE0(upper, b, pb) {
+						problems = append(problems, "high "+describe(upper)+" not proven >= 0")
+					}
 				} else if x.Low != nil {
-					if !boundWithin(x.Low, x.X, b, pb, false) && !callersEstablish(c, fn, x.X, x.Low, pb, false) {
+					if !boundWithin(x.Low, x.X, b, pb, false) && !callersEstablish(c, fn, x.X, x.Low, pb, false) && !linLELen(x.Low, x.X, b, pb, false) {
 						problems = append(problems, "low bound "+describe(x.Low)+" not proven <= len("+describe(x.X)+")")
 					}
+				}
+				if x.Low != nil && rangeAt(x.Low, b, pb).lo < 0 && !linGE0(x.Low, b, pb) {
+					problems = append(problems, "low "+describe(x.Low)+" not proven >= 0")
 				}
 				c.Check(sr.slice, key, pos, len(problems) == 0, "slice bounds established by dominating comparisons", strings.Join(problems, "; ")+": slice bounds out of range panic for a hostile length")
 			case *ssa.IndexAddr, *ssa.Index:
@@ -498,7 +504,7 @@ func scanSinks(c *Ctx, fns []*ssa.Function, sr sinkRules) {
 				b := ins.Block()
 				key := fmt.Sprintf("%s | %s[%s]", name, describe(base), describe(idx))
 				ir := rangeAt(idx, b, pb)
-				ok := ir.lo >= 0 && (boundWithin(idx, base, b, pb, true) || callersEstablish(c, fn, base, idx, pb, true))
+				ok := (ir.lo >= 0 || linGE0(idx, b, pb)) && (boundWithin(idx, base, b, pb, true) || callersEstablish(c, fn, base, idx, pb, true) || linLELen(idx, base, b, pb, true))
 				c.Check(sr.index, key, pos, ok, "index proven inside the indexed value by dominating comparisons",
 					"index "+describe(idx)+" not proven < len("+describe(base)+") (or >= 0): index out of range panic for a hostile input")
 			case *ssa.Panic:
